@@ -105,6 +105,32 @@ func (p *pkg) typeSpec(name string) *ast.TypeSpec {
 	return nil
 }
 
+// iotaValue returns the value of a constant declared in a `const ( A T = iota; B; C … )` block.
+func (p *pkg) iotaValue(name string) (int, bool) {
+	for _, f := range p.files {
+		for _, d := range f.Decls {
+			gd, ok := d.(*ast.GenDecl)
+			if !ok || gd.Tok != token.CONST {
+				continue
+			}
+			isIota := false
+			for i, s := range gd.Specs {
+				vs := s.(*ast.ValueSpec)
+				if len(vs.Values) == 1 {
+					id, ok := vs.Values[0].(*ast.Ident)
+					isIota = ok && id.Name == "iota"
+				} else if len(vs.Values) > 1 {
+					isIota = false
+				}
+				if len(vs.Names) == 1 && vs.Names[0].Name == name && isIota {
+					return i, true
+				}
+			}
+		}
+	}
+	return 0, false
+}
+
 // constExpr returns the initialiser of a package-level constant (single-name specs only).
 func (p *pkg) constExpr(name string) ast.Expr {
 	for _, f := range p.files {
@@ -173,7 +199,7 @@ func goTypeName(p *pkg, e ast.Expr) string {
 	switch x := e.(type) {
 	case *ast.Ident:
 		switch x.Name {
-		case "string", "bool", "int", "int64", "byte", "error", "uint8":
+		case "string", "bool", "int", "int64", "int8", "int16", "int32", "byte", "error", "uint8":
 			return x.Name
 		}
 		return p.name + "." + x.Name
@@ -202,7 +228,7 @@ func leanOfGoName(p *pkg, g string) (string, bool) {
 		return "Bytes", true
 	case "bool":
 		return "Bool", true
-	case "int", "int64":
+	case "int", "int64", "int8", "int16", "int32":
 		return "Int", true
 	case "byte", "uint8":
 		return "UInt8", true
@@ -275,6 +301,7 @@ type fn struct {
 	loop    *loopCtx
 	loops   []string // generated loop definitions (emitted before the function)
 	nloop   int
+	ntmp    int
 	fuelIx  int
 	params  []variable // receiver first
 	uses    map[string]bool
@@ -413,6 +440,9 @@ func (f *fn) expr(e ast.Expr) ex {
 				return ex{"(" + v.lean + ".getD [])", true, ty{in.lean, strings.TrimPrefix(v.t.gon, "nilable:")}}
 			}
 			return ex{v.lean, true, v.t}
+		}
+		if v, ok := f.p.iotaValue(x.Name); ok {
+			return ex{fmt.Sprintf("(%d : Int)", v), true, intTy}
 		}
 		if ce := f.p.constExpr(x.Name); ce != nil {
 			return f.expr(ce)
@@ -646,6 +676,14 @@ func (f *fn) call(x *ast.CallExpr) ex {
 			// function of the same package that is a target
 			if tg := findTarget(f.p.dir, "", name); tg != nil {
 				return f.callTarget(tg, nil, x.Args, x.Pos())
+			}
+			// a function that is not translated but stands for a parameter of the generated code
+			if ec, ok := externFuncs[f.p.dir+"."+name]; ok {
+				codes, pure, _ := f.args(x.Args)
+				for _, u := range ec.uses {
+					f.uses[u] = true
+				}
+				return ex{subst(ec.tmpl, "", codes), pure, ec.t}
 			}
 		}
 	}
@@ -1095,6 +1133,20 @@ func (f *fn) assign(o *w, s *ast.AssignStmt) {
 	default:
 		fail(s.Pos(), "assignment operator %s", s.Tok)
 	}
+	if len(s.Lhs) == 2 && len(s.Rhs) == 1 {
+		// a, b := f(...) where f returns a pair
+		r := f.expr(s.Rhs[0])
+		parts, ok := pairTypes[r.t.lean]
+		if !ok {
+			fail(s.Pos(), "two-value assignment from %s", r.t.lean)
+		}
+		f.ntmp++
+		tmp := fmt.Sprintf("pair%d", f.ntmp)
+		o.line("let %s := %s", tmp, r.code)
+		f.assignTo(o, s.Lhs[0], s.Tok, ex{tmp + ".1", true, parts[0]})
+		f.assignTo(o, s.Lhs[1], s.Tok, ex{tmp + ".2", true, parts[1]})
+		return
+	}
 	if len(s.Lhs) != len(s.Rhs) {
 		fail(s.Pos(), "assignment arity")
 	}
@@ -1330,7 +1382,15 @@ func (f *fn) forStmt(o *w, init ast.Stmt, cond ast.Expr, post ast.Stmt, body *as
 		}
 	}
 	var hdr strings.Builder
-	fmt.Fprintf(&hdr, "def %s (fuel : Nat)", loopName)
+	fmt.Fprintf(&hdr, "def %s", loopName)
+	for _, u := range f.tg.Uses { // parameters of the generated code are explicit binders of the loop function
+		ut, ok := useTypes[u]
+		if !ok {
+			fail(pos, "no type recorded for the parameter %s", u)
+		}
+		fmt.Fprintf(&hdr, " (%s : %s)", u, ut)
+	}
+	hdr.WriteString(" (fuel : Nat)")
 	for _, p := range f.params {
 		for _, n := range paramNames {
 			if n == p.lean {
@@ -1348,7 +1408,8 @@ func (f *fn) forStmt(o *w, init ast.Stmt, cond ast.Expr, post ast.Stmt, body *as
 	fmt.Fprintf(&hdr, " : %s :=", outTy)
 
 	callArgs := func(fuelArg string) string {
-		a := []string{fuelArg}
+		a := append([]string{}, f.tg.Uses...)
+		a = append(a, fuelArg)
 		a = append(a, paramNames...)
 		for _, v := range readonly {
 			a = append(a, v.lean)
